@@ -404,6 +404,49 @@ def run(prog: Program, res: Result, tier: str) -> None:
                         "discarded on reading (e.g. every descriptor with a "
                         "None placeholder when the test compares its atoms "
                         "with the graph's atoms)", instance=inst)
+    # a restored descriptor is attached unconditionally: the only guard a
+    # setter call may sit under (besides the class guard and the section
+    # loops) is the presence test of the restored object itself
+    for c in ast.walk(r.node):
+        if not (isinstance(c, ast.Call) and isinstance(c.func, ast.Attribute)
+                and c.func.attr in ("set_atom_stereo", "set_bond_stereo",
+                                    "set_atom_stereo_change",
+                                    "set_bond_stereo_change")):
+            continue
+        vals = [norm(a_) for a_ in c.args] + [norm(k.value)
+                                              for k in c.keywords]
+        tests = []
+        prev = c
+        for a_ in ancestors(c):
+            if isinstance(a_, ast.If):
+                tests.append(a_.test)
+            if isinstance(a_, ast.FunctionDef):
+                break
+        odd = []
+        for t in tests:
+            parts = t.values if isinstance(t, ast.BoolOp) and isinstance(
+                t.op, ast.And) else [t]
+            for part in parts:
+                pt = norm(part, 200)
+                if pt.startswith("isinstance(graph,"):
+                    continue
+                if any(pt in (v, f"{v} is not None") for v in vals):
+                    continue
+                if re.fullmatch(r"any\(\((\w+, )*\w+\)\)|any\(\[.*\]\)", pt) \
+                        and all(w in " ".join(vals)
+                                for w in re.findall(r"\w+", pt)[1:]):
+                    continue
+                odd.append(pt)
+        inst = f"reader: {norm(c.func)}(...) attaches every restored descriptor"
+        if odd:
+            res.bad("J-PAYLOAD", f"reader: {c.func.attr} under {odd[0][:60]}",
+                    r.loc(c), f"{inst}: the call is guarded by `{odd[0]}`; a "
+                    "stored descriptor that fails it is dropped silently "
+                    "(e.g. every descriptor with a None placeholder when its "
+                    "atoms are compared with the graph's atoms)",
+                    instance=inst)
+        else:
+            res.ok("J-PAYLOAD", inst, r.loc(c))
     # set_*_stereo_change REPLACES the entry: one call per entry, all roles
     for kind in ("atom", "bond"):
         for c in ast.walk(r.node):
